@@ -66,9 +66,10 @@ CLAIMS = {
          'peek_bits/peek_signed_bits have bits_read outside their mod set. B/T4: look-ahead and transactions restore the checkpoint on exactly the right paths. '
          'C: read_bits/read_signed_bits are peek(n) then skip(n) with one n. E: realignment_bits tabulated over 0..4095, needed_bytes_for_bits = div_ceil(sat_sub(n, sat_sub(8 len, pos)), 8), ensure_bits, commit (drain pos/8 bytes, keep pos mod 8: tabulated, drain first), '
          'rollback guard (tabulated on a grid) and two\'s-complement sign extension. F: start-code scan (17-bit window == 1, one bit per step, nearest first, bounded by realignment_bits). '
-         'G: VLC walk consumes one bit per step and all 6 tables are acyclic/in range/fully reachable (folded from const MIR). NOT decided: MSB-first assembly in '
-         'the peek_bits byte loop; exactly-once delivery as a history property follows from A-G only under that assumption.',
-    technique='mod/ref effect analysis, dominance/control-dependence rules, def-use expression pattern matching, const-table folding', ref='6/C14'),
+         'G: VLC walk consumes one bit per step and all 6 tables are acyclic/in range/fully reachable (folded from const MIR). H: MSB-first assembly in peek_bits - the loop\'s per-iteration transfer function '
+         '(bits taken k = min(8 - offset, needed); accum := (accum << k) | ((byte << offset) as u8 >> (8 - k)); offset := 0; needed -= k) is extracted as terms and tabulated over every offset, count and byte for 8-, 16- and 32-bit accumulators, '
+         'with the start state (byte bits_read/8, offset bits_read%8, accum 0), the stop condition and the returned value. Exactly-once delivery as a history property follows from A-H by induction over the operations (DESIGN.md 11.11), which is an argument, not a machine step.',
+    technique='mod/ref effect analysis, dominance/control-dependence rules, def-use expression pattern matching, closed forms and the peek loop transfer function tabulated on normalised terms, const-table folding', ref='6/C14'),
  'C15': dict(
     text='Static, all inputs: where the reader stands after a successful decode is decided on the MIR of the decode closure. M7 the macroblock loop has '
          'an exit, dominating the macroblock parse, that fires when len(macroblock vector) >= mb_per_line*mb_height (found D1: absent; fixed); RS the '
